@@ -8,7 +8,8 @@ from pathlib import Path
 from delphin import variable
 from delphin.lnk import Lnk
 from delphin.mrs import CONSTANT_ROLE, EP, MRS, HCons, ICons, MRSSyntaxError
-from delphin.semi import STRING_TYPE, SemIError
+from delphin.predicate import normalize as normalize_predicate
+from delphin.semi import Synopsis
 from delphin.util import Lexer
 
 CODEC_INFO = {
@@ -246,11 +247,16 @@ def _decode_lnk(lexer):
 
 def _find_synopsis(semi, pred, argtypes, carg):
     if carg is not None:
-        # the synopsis may list the constant as a role
-        try:
-            return semi.find_synopsis(pred, argtypes + [STRING_TYPE])
-        except SemIError:
-            pass
+        # the synopsis may list the constant as a role (in any position),
+        # but the constant is not among the positional variables
+        pred_ = normalize_predicate(pred)
+        if pred_ in semi.predicates:
+            for synopsis in semi.predicates[pred_]:
+                roles = [d for d in synopsis if d.name != CONSTANT_ROLE]
+                if (len(roles) < len(synopsis)
+                        and Synopsis(roles).subsumes(argtypes,
+                                                     semi.variables)):
+                    return synopsis
     return semi.find_synopsis(pred, argtypes)
 
 
